@@ -79,6 +79,12 @@ func newKeyCert(curve string, hosts []string, pad int) *keyCert {
 	if curve == "p384" {
 		c = elliptic.P384()
 	}
+	if curve == "p521" {
+		c = elliptic.P521()
+	}
+	if curve == "p224" {
+		c = elliptic.P224()
+	}
 	key, err := ecdsa.GenerateKey(c, crand.Reader)
 	if err != nil {
 		panic(err)
